@@ -141,14 +141,22 @@ _HARNESS_SET: set[str] = set()
 def _strip(d: Any, extra: set[str] = frozenset()) -> Any:  # type: ignore[assignment]
     if not isinstance(d, dict):
         return d
-    return {k: v for k, v in d.items() if k not in plan.BOOKKEEPING and k not in extra and k not in _HARNESS_SET}
+    return {k: _nz(v) for k, v in d.items() if k not in plan.BOOKKEEPING and k not in extra and k not in _HARNESS_SET}
+
+
+def _nz(v: Any) -> Any:
+    """Empty items of a list value (only a trailing separator produces them, e.g. `mypy_path = a,` in ini) are not compared:
+    an empty search-path entry is the current directory, which is searched anyway - no diagnostic difference can be shown."""
+    if isinstance(v, list) and "" in v:
+        return [x for x in v if x != ""]
+    return v
 
 
 def _val(diff: Any, base: Any, key: str) -> Any:
     if isinstance(diff, dict) and key in diff:
-        return diff[key]
+        return _nz(diff[key])
     if isinstance(base, dict):
-        return base.get(key, "<absent>")
+        return _nz(base.get(key, "<absent>"))
     return "<no-snapshot>"
 
 
@@ -577,13 +585,23 @@ def run(ctx: common.Ctx) -> None:
                 else:
                     judge_prec(ctx, t, r["res"])
     ctx.extra["slowest_option_groups"] = sorted(walls, reverse=True)[:8]
+    # every part must have been observed: a run in which one part vanished (timeouts, dead workers) is not "held"
+    done = {"groups": ctx.cells.get("option-groups-judged", 0), "prec": ctx.cells.get("prec:cases", 0), "e2e": ctx.cells.get("e2e:cases", 0)}
+    want = {"groups": n_groups, "prec": len(cases), "e2e": len(e2e_cases)}
+    ctx.extra["parts"] = {"done": done, "planned": want}
+    part_missing = [k for k in want if not os.environ.get("VERIF_C17_ONLY") and done[k] < 0.6 * want[k]]
     # floors: ~40% of what the unchanged tree yields
+    # (unchanged tree, scale 1: quick ~74k evaluations / ~12.5k distinct non-trivial; thorough see report)
+    f = min(scale, 1.0) * (0.5 if scale < 1 else 1.0)
     if quick:
-        ctx.floor_evaluations = int((3000 + 15000) * min(scale, 1.0))
-        ctx.floor_nontrivial = int((900 + 6000) * min(scale, 1.0))
+        ctx.floor_evaluations = int(30000 * f)
+        ctx.floor_nontrivial = int(5000 * f)
     else:
-        ctx.floor_evaluations = int((4000 + 100000) * min(scale, 1.0))
-        ctx.floor_nontrivial = int((1200 + 40000) * min(scale, 1.0))
+        ctx.floor_evaluations = int(300000 * f)
+        ctx.floor_nontrivial = int(60000 * f)
+    if part_missing:
+        ctx.inconc("part-incomplete:" + ",".join(part_missing))
+        ctx.floor_evaluations = 10 ** 9
     sm = [s for s in ctx.samples]
     ctx.samples = sm[:8]
 
